@@ -16,9 +16,10 @@ from vcheck import Machinery, pmap
 
 TOK_PLAIN = r"(?P<SPACE>\s+)|(?P<a>a)|(?P<b>b)|(?P<c>c)"
 # keywords / synonyms configuration: two regex groups map to token 'a', a WORD value to 'b'
-TOK_KW = r"(?P<SPACE>\s+)|(?P<X1>x)|(?P<X2>y)|(?P<WORD>[k-w]+)"
-KW_SYN = {'X1': 'a', 'X2': 'a'}
-KW_KEY = {('WORD', 'kw'): 'b', ('WORD', 'kww'): 'c'}
+# the keywords are declared for a token name that exists only through the synonyms (three groups are called 'a')
+TOK_KW = r"(?P<SPACE>\s+)|(?P<X1>x)|(?P<X2>y)|(?P<W1>[k-w]+)"
+KW_SYN = {'X1': 'a', 'X2': 'a', 'W1': 'a'}
+KW_KEY = {('a', 'kw'): 'b', ('a', 'kww'): 'c'}
 
 FAMILIES = {
     # name: (NumNT, terms, MaxAlts, MaxLen, K, PrefixLen)
@@ -154,7 +155,7 @@ def render(toks, kw, salt=0):
     lex = []
     for i, t in enumerate(toks):
         if t == 'a':
-            lex.append('xy'[(i + salt) % 2])
+            lex.append(('x', 'y', 'mm')[(i + salt) % 3])
         elif t == 'b':
             lex.append('kw')
         else:
